@@ -327,8 +327,7 @@ def check_fast_gap(repo, rep, tier):
     rep.floor(rid, 500)
 
 
-def check_symbol_interleaving(repo, rep):
-    rid = "C02-R7"
+def check_symbol_interleaving(repo, rep, rid="C02-R7"):
     rep.rule(rid, "several symbols: an order that a hook of symbol A creates for symbol B at minute m may only be matched against B's "
                   "candles from m on, and must be matched against all of them. Necessary structural condition, decided on the loop "
                   "nest of each simulator: inside the per-symbol loop the matcher receives exactly one minute of that symbol (so "
